@@ -1281,6 +1281,10 @@ class TransformSet:
             closure=fn.__closure__,
         )
         self.base_function.__ptera_discard__ = True
+        # The function this is a pristine copy of. It lets a reference that
+        # designates the original code be resolved while the function itself
+        # is running an instrumented variant.
+        self.base_function.__ptera_target__ = fn
         self._register(None, fn)
 
     def _conform(self, new):
